@@ -113,52 +113,7 @@ def go_map_rejects(v):
 
 # ------------------------------------------------------------------------------------------- C03
 
-def with_relatives(rng, v):
-    """Replace some canonical leaves by non-canonical relatives with the same normal form."""
-    k = v[0]
-    if k == "I" and rng.random() < 0.3:
-        n = v[1]
-        opts = []
-        if -128 <= n < 128:
-            opts.append(("Qraw", f"Q8:{n}"))
-        if -2 ** 15 <= n < 2 ** 15:
-            opts.append(("Qraw", f"Q16:{n}"))
-        if -2 ** 31 <= n < 2 ** 31:
-            opts.append(("Qraw", f"Q32:{n}"))
-        opts.append(("Qraw", f"Q0:{n}"))
-        if 0 <= n < 256:
-            opts.append(("Qraw", f"V8:{n}"))
-        if 0 <= n < 2 ** 16:
-            opts.append(("Qraw", f"V16:{n}"))
-        if 0 <= n:
-            opts.append(("Qraw", f"V64:{n}"))
-            opts.append(("Qraw", f"V0:{n}"))
-        return ("raw", rng.choice(opts)[1], v)
-    if k == "N" and rng.random() < 0.3:
-        return ("raw", "Nil", v)
-    if k in ("l", "t"):
-        return (k, [with_relatives(rng, x) for x in v[1]])
-    if k in ("I", "D", "S", "B", "T", "F") and rng.random() < 0.08:
-        return ("raw", "P( " + V.render(v) + " )", v)
-    return v
-
-
-def render_raw(v):
-    k = v[0]
-    if k == "raw":
-        return v[1]
-    if k in ("l", "t"):
-        return k + "( " + "".join(render_raw(x) + " " for x in v[1]) + ")"
-    return V.render(v, sort=False)
-
-
-def strip_raw(v):
-    k = v[0]
-    if k == "raw":
-        return v[2]
-    if k in ("l", "t"):
-        return (k, [strip_raw(x) for x in v[1]])
-    return v
+with_relatives, render_raw, strip_raw = V.with_relatives, V.render_raw, V.strip_raw
 
 
 class C03:
@@ -290,6 +245,11 @@ class C05:
             ins.append(P.mutate(rng, rng.choice(base)))
         for _ in range(ctx.scale(1500, 30000)):
             ins.append(P.ProgGen(rng, wellformed=rng.random() < 0.9, persid=0.05, maxops=rng.choice([6, 15, 40, 80])).gen())
+        # every integer of the lattice (±2^k±{0,1,2}, k <= 70) as int64 / *big.Int result: the re-encoder's
+        # width choices (BININT1/2, BININT, text) are decided by these boundaries
+        for n in V.INT_LATTICE:
+            ins.append(P.INT(n) + b".")
+            ins.append(b"(" + P.LONG(n) + P.INT(n) + b"t.")
         lines, meta = [], []
         seen = set()
         for data in ins:
@@ -529,8 +489,46 @@ class C13:
                 f = g.split(" ")
                 if f[1] != "0":
                     ctx.violate("injected error reported although no Write failed", line[:3000], "no injected error", g)
+        self.run_reflect(ctx)
         for i in range(0, len(lines), max(1, len(lines) // 8)):
             ctx.sample(lines[i][:300] + " -> " + go[i][:100])
+
+    def run_reflect(self, ctx):
+        """The same fault injection over reflect-generated Go types (structs with several tagged fields, embedded
+        structs, typed maps and slices, pointers): values no GoVal token describes."""
+        rng = ctx.rng
+        n = ctx.scale(700, 12000)
+        base = ctx.seed * 7000003
+        blines = [f"encr {base + i} {rng.randint(0, 5)} {rng.randint(0, 1)}" for i in range(n)]
+        bgo = C.run_sharded(C.run_go, blines)
+        lines, meta = [], []
+        for bl, bg in zip(blines, bgo):
+            if " => OK " not in bg:
+                continue        # an encoder error: with maps / tag maps the number of writes before it is order-dependent
+            desc, res = bg.split(" => ", 1)
+            nw = len(res[3:].split(","))
+            f = bl.split(" ")
+            multi = "rmap(" in desc or "=" in desc
+            ks = range(1, nw + 2) if (nw <= 30 or ctx.thorough) else sorted(set([1, 2, nw - 1, nw, nw + 1] + [rng.randint(1, nw) for _ in range(12)]))
+            for k in ks:
+                lines.append(f"encrf {f[1]} {f[2]} {f[3]} {k}")
+                meta.append((nw, k, multi, f"encrf {f[2]} {f[3]} {k} {desc}"))
+        go = C.run_sharded(C.run_go, lines)
+        lean = C.run_sharded(C.run_lean, [m[3] for m in meta])
+        for line, (nw, k, multi, ml), g, l in zip(lines, meta, go, lean):
+            ctx.evaluations += 1
+            ctx.nontrivial(line)
+            ctx.count("reflect-fault@" + ("within" if k <= nw else "beyond") + (":tagged" if "=" in ml else ""))
+            if not multi:
+                ctx.tie(ml[:3000], g, l)
+            if "PANIC" in g:
+                ctx.violate("Encode panicked with a failing Writer", line + "   value: " + ml[:1500], "error", g)
+            elif k <= nw:
+                if g != f"{k} 1 -":
+                    ctx.violate("a failing Write did not surface as Encode's error, or writes continued after it",
+                                line + "   value: " + ml[:1500], f"{k} 1 -", g)
+            elif g.split(" ")[1] != "0":
+                ctx.violate("injected error reported although no Write failed", line + "   value: " + ml[:1500], "no injected error", g)
 
 
 # ------------------------------------------------------------------------------------------- C15
